@@ -207,12 +207,20 @@ Theorem frame_sizes : forall s o y, ~ resized_by s o y -> sz (fst (step s o)) y 
 Proof. exact ProofsFrame.frame_sizes. Qed.
 Print Assumptions frame_sizes.
 
-(* T4 (frame), positions, PARTIAL: a signal moves only if it is the one named by an attach / shift,
-   sits in the compacted message, or sits in a layout that holds the signal resized by SetType /
-   SetEnum. Not characterised: AddValue / UpdateIndex ([may_move] is True there); "in a layout
-   holding the resized signal" is weaker than "behind it"; the relative order of unnamed signals is
-   only evaluated on the implementation (harness class frame-order). *)
-Theorem frame_positions_partial : forall s o y, InvA s -> InvM s -> InvR s -> ok_op_f s o ->
+(* T4 (frame), positions: a signal moves only if [may_move] (ProofsFrame) says so: it is the one named by an
+   attach / shift, it sits in the compacted message, or it is in the moved set of a size change
+   (ProofsLayout.moved_in: in a layout holding the resized signal, every follower on shrink, the followers
+   the push reaches on growth) - for SetType / SetEnum of that signal, for AddValue / UpdateIndex of
+   some signal referencing the enum. Every other operation moves nothing. *)
+Theorem frame_positions : forall s o y, InvA s -> InvM s -> InvR s -> ok_op_f s o ->
   rel (fst (step s o)) y <> rel s y -> may_move s o y.
 Proof. exact frame_positions_f. Qed.
-Print Assumptions frame_positions_partial.
+Print Assumptions frame_positions.
+
+(* T4 (frame), relative order: two signals that are in a layout (a message layout or a multiplexer group)
+   both before and after an operation keep their relative order *)
+Theorem frame_order : forall s o L y z, InvA s -> InvM s -> InvR s -> ok_op_f s o ->
+  In y (lay s L) -> In z (lay s L) -> In y (lay (fst (step s o)) L) -> In z (lay (fst (step s o)) L) ->
+  (rel s y < rel s z <-> rel (fst (step s o)) y < rel (fst (step s o)) z).
+Proof. exact frame_order_f. Qed.
+Print Assumptions frame_order.
